@@ -206,11 +206,17 @@ def check_composite(comp, res):
     want = dump(sv)['nodes']
     got = dump(tv)
     got_nodes = got['nodes'] if got and got.get('k') == 'list' else None
+    last_ok = True
     if W and not opener and want and want[-1].get('k') == 'chars':
         # the blanks written before the stray token form the last node of the prefix; a
-        # recovery that keeps the stray token as text may merge it into that node
+        # recovery that keeps the stray token as text may merge it into that node: the blanks
+        # must still be there, at the start of a chars node at the same position
+        last = want[-1]
         want = want[:-1]
-    if got_nodes is None or got_nodes[:len(want)] != want:
+        g = got_nodes[len(want)] if got_nodes is not None and len(got_nodes) > len(want) else None
+        last_ok = bool(g) and g.get('k') == 'chars' and g.get('pos') == last.get('pos') \
+            and str(g.get('chars', '')).startswith(str(last.get('chars', '')))
+    if got_nodes is None or got_nodes[:len(want)] != want or not last_ok:
         res.fail('c06:prefix-lost:' + ('nested' if opener else 'top') + ':' + T,
                  'nodes of the well-formed prefix %r are not the first nodes of the tolerant '
                  'result for %r: got %r' % (D, s, str(got_nodes)[:300]), case)
